@@ -80,6 +80,10 @@ Definition py_neg (self : oexpr) : res oexpr := run arith_cbs t_Operator_neg sel
 Definition py_div : oexpr -> operand -> res oexpr := run arith_cbs t_Operator_truediv.
 Definition py_pow (self : oexpr) (n : Z) : res oexpr := run arith_cbs t_Operator_pow self (PInt n).
 
+(* the variant switch of the open finding about complex right scalars, read off the regenerated
+   Operator.__mul__ (does its shortcut test isinstance(other, Real)?) *)
+Definition real_shortcut_of_table : bool := tree_mentions_real t_Operator_mul.
+
 (* [build] with every overload taken from the regenerated trees *)
 Fixpoint build_tab (s : sexpr T) : res oexpr :=
   match s with
@@ -97,13 +101,13 @@ Fixpoint build_tab (s : sexpr T) : res oexpr :=
   | SVSub v a => bind (build_tab a) (fun oa => py_rsub oa (PVec v))
   | SMulV a v => bind (build_tab a) (fun oa => py_mul oa (PVec v))
   | SVMul v a => bind (build_tab a) (fun oa => py_rmul oa (PVec v))
-  | SAddC a c => bind (build_tab a) (fun oa => py_add oa (PScal c))
-  | SCAdd c a => bind (build_tab a) (fun oa => py_radd oa (PScal c))
-  | SSubC a c => bind (build_tab a) (fun oa => py_sub oa (PScal c))
-  | SCSub c a => bind (build_tab a) (fun oa => py_rsub oa (PScal c))
-  | SMulC a c => bind (build_tab a) (fun oa => py_mul oa (PScal c))
-  | SCMul c a => bind (build_tab a) (fun oa => py_rmul oa (PScal c))
-  | SDivC a c => bind (build_tab a) (fun oa => py_div oa (PScal c))
+  | SAddC a c => bind (build_tab a) (fun oa => py_add oa (PScal c true))
+  | SCAdd c a => bind (build_tab a) (fun oa => py_radd oa (PScal c true))
+  | SSubC a c => bind (build_tab a) (fun oa => py_sub oa (PScal c true))
+  | SCSub c a => bind (build_tab a) (fun oa => py_rsub oa (PScal c true))
+  | SMulC a c rl => bind (build_tab a) (fun oa => py_mul oa (PScal c rl))
+  | SCMul c a => bind (build_tab a) (fun oa => py_rmul oa (PScal c true))
+  | SDivC a c rl => bind (build_tab a) (fun oa => py_div oa (PScal c rl))
   | SPtw a b => bind (build_tab a) (fun oa => bind (build_tab b) (fun ob => mkPtw oa ob))
   end.
 End DM.
